@@ -296,7 +296,8 @@ pub fn run(p: &Params) -> Outcome {
             let mut done = 0u64;
             let mut margin = 0.0f64;
             if part == 0 {
-                let bp = boundary_patterns(w);
+                let mut bp = boundary_patterns(w);
+                bp.extend(crate::fields::domain_codes(f).into_iter().map(|k| f.int_pattern(k)));
                 for &pat in &bp {
                     for d in [0u64, 1, m] {
                         let q = pat.wrapping_add(d) & m;
